@@ -8,8 +8,8 @@ use poulpy_hal::{
 use poulpy_core::{
     GGSWExpandRows, GGSWFromGGLWE, GLWECopy, GLWEDecrypt, GLWENormalize, GLWEPacking, GLWERotate, GLWETrace, ScratchTakeCore,
     layouts::{
-        Dsize, GGLWE, GGLWEInfos, GGLWELayout, GGLWEPreparedToRef, GGSWInfos, GGSWToMut, GLWEAutomorphismKeyHelper, GLWEInfos,
-        GLWELayout, GLWESecretPreparedFactory, GLWEToMut, GLWEToRef, GetGaloisElement, LWEInfos, LWEToRef, Rank,
+        GGLWEInfos, GGLWELayout, GGLWEPreparedToRef, GGSWInfos, GGSWToMut, GLWEAutomorphismKeyHelper, GLWEInfos, GLWELayout,
+        GLWESecretPreparedFactory, GLWEToMut, GLWEToRef, GetGaloisElement, LWEInfos, LWEToRef,
     },
 };
 
@@ -39,6 +39,23 @@ pub trait CircuitBootstrappingExecute<BRA: BlindRotationAlgo, BE: Backend> {
         &self,
         block_size: usize,
         extension_factor: usize,
+        res_infos: &R,
+        cbt_infos: &A,
+    ) -> usize
+    where
+        R: GGSWInfos,
+        A: CircuitBootstrappingKeyInfos;
+
+    /// Returns the minimum scratch-space size (bytes) required by
+    /// [`circuit_bootstrapping_execute_to_exponent`][Self::circuit_bootstrapping_execute_to_exponent]:
+    /// the exponent mode re-packs `2^log_domain` rotated copies of the blind-rotation output, which
+    /// [`circuit_bootstrapping_execute_tmp_bytes`][Self::circuit_bootstrapping_execute_tmp_bytes] (sized for the
+    /// constant mode) does not contain.
+    fn circuit_bootstrapping_execute_to_exponent_tmp_bytes<R, A>(
+        &self,
+        block_size: usize,
+        extension_factor: usize,
+        log_domain: usize,
         res_infos: &R,
         cbt_infos: &A,
     ) -> usize
@@ -157,21 +174,22 @@ where
         R: GGSWInfos,
         A: CircuitBootstrappingKeyInfos,
     {
-        let gglwe_infos: GGLWELayout = GGLWELayout {
-            n: res_infos.n(),
-            base2k: res_infos.base2k(),
-            k: res_infos.max_k(),
-            dnum: res_infos.dnum(),
-            dsize: Dsize(1),
-            rank_in: res_infos.rank().max(Rank(1)),
-            rank_out: res_infos.rank(),
-        };
+        cbt_execute_tmp_bytes(self, None, block_size, extension_factor, res_infos, cbt_infos)
+    }
 
-        self.blind_rotation_execute_tmp_bytes(block_size, extension_factor, res_infos, &cbt_infos.brk_infos())
-            .max(self.glwe_trace_tmp_bytes(res_infos, res_infos, &cbt_infos.atk_infos()))
-            .max(self.ggsw_from_gglwe_tmp_bytes(res_infos, &cbt_infos.tsk_infos()))
-            + GLWE::<Vec<u8>>::bytes_of_from_infos(res_infos)
-            + GGLWE::bytes_of_from_infos(&gglwe_infos)
+    fn circuit_bootstrapping_execute_to_exponent_tmp_bytes<R, A>(
+        &self,
+        block_size: usize,
+        extension_factor: usize,
+        log_domain: usize,
+        res_infos: &R,
+        cbt_infos: &A,
+    ) -> usize
+    where
+        R: GGSWInfos,
+        A: CircuitBootstrappingKeyInfos,
+    {
+        cbt_execute_tmp_bytes(self, Some(log_domain), block_size, extension_factor, res_infos, cbt_infos)
     }
 
     fn circuit_bootstrapping_execute_to_constant<R, L, D>(
@@ -209,11 +227,83 @@ where
         D: DataRef,
     {
         assert!(
-            scratch.available() >= self.circuit_bootstrapping_execute_tmp_bytes(key.block_size(), extension_factor, res, key)
+            scratch.available()
+                >= self.circuit_bootstrapping_execute_to_exponent_tmp_bytes(
+                    key.block_size(),
+                    extension_factor,
+                    log_domain,
+                    res,
+                    key
+                ),
+            "scratch.available(): {} < CircuitBootstrappingExecute::circuit_bootstrapping_execute_to_exponent_tmp_bytes: {}",
+            scratch.available(),
+            self.circuit_bootstrapping_execute_to_exponent_tmp_bytes(key.block_size(), extension_factor, log_domain, res, key)
         );
 
         circuit_bootstrap_core(true, self, log_gap_out, res, lwe, log_domain, extension_factor, key, scratch);
     }
+}
+
+/// Scratch space of [`circuit_bootstrap_core`], level by level as the code takes it: the blind-rotation output in the
+/// automorphism keys' radix stays for the whole row loop; beside it either the blind rotation (on a temporary in the blind
+/// rotation key's radix) or the per-row post-processing (constant mode: a trace; exponent mode, `log_domain = Some(_)`:
+/// a trace, `2^log_domain` rotated copies and their packing) or the rotation between rows; the final row expansion runs on
+/// the whole scratch.
+fn cbt_execute_tmp_bytes<M, R, A, BRA: BlindRotationAlgo, BE: Backend>(
+    module: &M,
+    log_domain: Option<usize>,
+    block_size: usize,
+    extension_factor: usize,
+    res_infos: &R,
+    cbt_infos: &A,
+) -> usize
+where
+    M: BlindRotationExecute<BRA, BE> + GLWETrace<BE> + GLWEPacking<BE> + GLWERotate<BE> + GLWENormalize<BE> + GGSWExpandRows<BE>,
+    R: GGSWInfos,
+    A: CircuitBootstrappingKeyInfos,
+{
+    let brk_infos = cbt_infos.brk_infos();
+    let atk_infos = cbt_infos.atk_infos();
+
+    let glwe_brk_layout: GLWELayout = GLWELayout {
+        n: brk_infos.n(),
+        base2k: brk_infos.base2k(),
+        k: brk_infos.max_k(),
+        rank: brk_infos.rank(),
+    };
+    let glwe_atk_layout: GLWELayout = GLWELayout {
+        n: brk_infos.n(),
+        base2k: atk_infos.base2k(),
+        k: brk_infos.max_k(),
+        rank: brk_infos.rank(),
+    };
+
+    let lvl_0: usize = GLWE::<Vec<u8>>::bytes_of_from_infos(&glwe_atk_layout);
+
+    let lvl_1_blind_rotation: usize = GLWE::<Vec<u8>>::bytes_of_from_infos(&glwe_brk_layout)
+        + module
+            .blind_rotation_execute_tmp_bytes(block_size, extension_factor, &glwe_brk_layout, &brk_infos)
+            .max(module.glwe_normalize_tmp_bytes());
+
+    let lvl_1_trace: usize = module.glwe_trace_tmp_bytes(res_infos, &glwe_atk_layout, &atk_infos);
+    let lvl_1_row: usize = match log_domain {
+        None => lvl_1_trace,
+        Some(log_domain) => {
+            let a_bytes: usize = GLWE::<Vec<u8>>::bytes_of_from_infos(&glwe_atk_layout);
+            let pack: usize = module
+                .glwe_pack_tmp_bytes(res_infos, &atk_infos)
+                .max(module.glwe_pack_tmp_bytes(&glwe_atk_layout, &atk_infos));
+            let repack: usize = a_bytes
+                + module
+                    .glwe_trace_tmp_bytes(&glwe_atk_layout, &glwe_atk_layout, &atk_infos)
+                    .max((a_bytes << log_domain) + module.glwe_rotate_tmp_bytes().max(pack));
+            repack.max(lvl_1_trace)
+        }
+    };
+
+    let lvl_1: usize = lvl_1_blind_rotation.max(lvl_1_row).max(module.glwe_rotate_tmp_bytes());
+
+    (lvl_0 + lvl_1).max(module.ggsw_expand_rows_tmp_bytes(res_infos, &cbt_infos.tsk_infos()))
 }
 
 #[allow(clippy::too_many_arguments)]
